@@ -1262,6 +1262,54 @@ def lenbound(pid):
     return run
 
 
+def difatcap(pid):
+    """R-DIFATCAP: a DIFAT sector holds sector_len / 4 - 1 FAT-sector ids; its last word is the link to the next DIFAT
+    sector (MS-CFB 2.5).  The reader reads that many (R-WHOLE, parser clause).  Wherever the writer turns a DIFAT
+    index beyond the header's 109 entries into (DIFAT sector, slot) - a division or remainder whose dividend is
+    `index - NUM_DIFAT_ENTRIES_IN_HEADER` - the divisor must evaluate to 127 for 512-byte and 1023 for 4096-byte
+    sectors.  With sector_len / 4 the 128th id lands on the link word: the chain runs into a FAT sector and the id is
+    listed nowhere."""
+    import exprs
+    from core import numeric as _numeric
+
+    def run(ctx):
+        res = RuleResult("R-DIFATCAP(%s)" % pid, "every division / remainder of (DIFAT index - 109) uses sector_len / 4 - 1 entries per DIFAT sector (127 / 1023): the last word of a DIFAT sector is its link")
+        n = 0
+        for f in ctx.fx.fns.values():
+            pr = None
+            for bb, blk in enumerate(f.blocks):
+                if blk["cleanup"]:
+                    continue
+                for i, st in enumerate(blk["stmts"]):
+                    if st["s"] != "assign" or st["rv"]["r"] != "binop" or st["rv"]["op"] not in ("Div", "Rem", "Sub", "SubWithOverflow"):
+                        continue
+                    pr = pr or Prov(f)
+                    a = _numeric(pr.operand(st["rv"]["a"]))
+                    if not re.match(r"^Sub\(.*,const:109\)$", a):
+                        continue
+                    b = pr.operand(st["rv"]["b"])
+                    if st["rv"]["op"].startswith("Sub"):
+                        # index - 109 - sector_index * entries_per_sector: the slot within the DIFAT sector
+                        mm = re.match(r"^Mul\((.*)\)$", b)
+                        fs = exprs.split_top(mm.group(1)) if mm else []
+                        fs = [x for x in fs if exprs.evaluate(x, {"sector_len": 512}) is not None]
+                        if len(fs) != 1:
+                            continue
+                        b = fs[0]
+                    got = (exprs.evaluate(b, {"sector_len": 512}), exprs.evaluate(b, {"sector_len": 4096}))
+                    n += 1
+                    key = "R-DIFATCAP/%s/%s" % (f.path, st["rv"]["op"])
+                    if None in got:
+                        res.ok({"function": f.path, "line": st["span"]["line"], "divisor": b[:100], "verdict": "no verdict (divisor not evaluable)"})
+                    elif got != (127, 1023):
+                        res.fail(Finding(res.rule, key, "a DIFAT index beyond the header's 109 entries is split into (DIFAT sector, slot) with %s = %d / %d entries per sector for 512 / 4096-byte sectors; a DIFAT sector holds 127 / 1023 ids, its last word links to the next DIFAT sector - the id that lands on the link word cuts the DIFAT chain and is listed nowhere" % (b[:80], got[0], got[1]), f, st["span"]))
+                    else:
+                        res.ok({"function": f.path, "line": st["span"]["line"], "divisor": b[:100], "entries_per_sector": list(got)}, nontrivial=True)
+        res.floor("DIFAT index splits", n, ctx.table("floors").get("difatcap_sites", 0))
+        return res
+    return run
+
+
 def hdrv3(pid):
     """R-HDRV3: header word 40 (number of directory sectors) exists in version 4 only; MS-CFB 2.2 requires it to be
     zero in version 3 and strict open refuses anything else.  So whoever rewrites it in place asks for the version."""
